@@ -1,25 +1,34 @@
 """C12 — a cached function never returns a value computed by different source code.
 
-Model: lean/JoblibModel/FuncCode.lean (`_check_previous_func_code`, `_FUNCTION_HASHES`, func_code.py, the entries of one
-function id); theorems: lean/JoblibProofs/C12.lean; driver: lean/Driver/C12.lean.
+Model: lean/JoblibModel/FuncCode.lean (`_check_previous_func_code`, `func_code_info`, `_FUNCTION_HASHES`, `_FUNC_CODE_WRITERS`,
+func_code.py — missing / unreadable / garbled / a source —, the entries of one function id); theorems: lean/JoblibProofs/C12.lean;
+driver: lean/Driver/C12.lean.
 
 A case is a history over ONE function name in one cache directory, split into sessions (interpreter processes):
-  def o k        a new function object o with the source text of version k is created and wrapped with memory.cache
-  swap o p       o.__code__ = p.__code__
-  call o a       the cached function of o is called with argument a     (functions return (version, a) and log executions)
-  check o a      check_call_in_cache, always followed by the identical call
-  clearfn o / clearall
+  def o k        a new function object o with the source text of version k is created and wrapped with memory.cache (wrapper o)
+  wrap w o       memory.cache(f_o) once more: a second MemorizedFunc on the same function
+  swap o p       f_o.__code__ = <the code object function p was defined with>   (p = o: swap back to the original)
+  call w a       the cached function w is called with argument a     (functions log executions)
+  check w a      check_call_in_cache, always followed by the identical call
+  clearfn w / clearall
+  damage w kind  func_code.py is deleted or truncated (empty, inside the `# first line:` header, header without number, after the
+                 header, inside a multi-byte character, one byte short, two thirds) — between sessions and between calls
   fresh          the session ends; the next one starts on the same cache directory
 Every session is a GENERATED PROGRAM — one Python file, rewritten for each session ("edited between sessions") — run in its own
 interpreter: as a script (`__main__` functions), as an imported module (module-level functions), with the defs nested in a
 factory function (nested functions), or with lambdas.  Redefinition under the same name in one session is literally
 `def f ... ; f_1 = f ; def f ... ; f_2 = f`.
 
-* correspondence: per step (value, executed?, check flag) against the model driver (model version = what the tree under test
-  does on the F10 probe);
-* oracle (no model): every call of a live object whose current source is version k returns (k, a); and a call is not executed
-  again while the stored code is still its own version's (no call / check / clear by another version since) and the argument
-  was computed under it.
+VERSIONS of the function are edits of one base text of many kinds: a constant, an operator, indentation only (a statement moved
+out of / into a loop), comment only, docstring only, a blank line, trailing whitespace, a default argument, a renamed local,
+reordered statements (with and without effect); the same text also appears at other line numbers.  What a version computes is
+obtained by running its plain text, never written down by hand.
+
+* correspondence: per step (value, executed?, check flag) against the model driver (model configuration = what the tree under
+  test does on the F10 and F38 probes);
+* oracle (no model): every call of a live wrapper whose function's current code has version k returns what version k's plain
+  text returns; and a call is not executed again while the stored code is still its own version's text (no call / check / clear
+  by another text, no damage, since) and the argument was computed under it.
 """
 
 import concurrent.futures
@@ -38,66 +47,187 @@ REQUIRED_THEOREMS = [
     "C12.reachable_inv",
     "C12.unchanged_code_keeps_cache",
     "C12.hit_when_code_unchanged",
+    "C12.old_F38_counterexample",
+    "C12.old_F38_two_wrappers_counterexample",
+    "C12.old_F38_value_from_own_version_false",
+    "C12.fixed_on_the_F38_witnesses",
+    "C12.deleted_func_code_counterexample",
+    "C12.truncated_func_code_witness",
     "C12.old_F10_counterexample",
     "C12.old_F10_check_counterexample",
     "C12.old_value_from_own_version_false",
     "C12.fixed_on_the_witnesses",
 ]
 TRUSTED_EXTRA = [
-    "modelled, not verified: a source text determines the function's behaviour (closures over differing captured values and lambdas "
-    "sharing a line are outside the domain of the property); func_inspect.get_func_code returns the text of the def block "
-    "(validated by the correspondence for module-level, nested, __main__ and lambda definitions, and after a code-object swap)",
-    "modelled, not verified: hash(func.__code__) changes when the code object is swapped; a fresh process starts with an empty "
-    "_FUNCTION_HASHES (and _FUNC_CODE_WRITERS) table; dead function objects leaving the weak table are not modelled",
+    "modelled, not verified: a source text determines the function's behaviour (closures over differing captured values, differing "
+    "defaults at equal text and lambdas sharing a line are outside the domain of the property); func_inspect.get_func_code returns "
+    "the text of the def block (validated by the correspondence for module-level, nested, __main__ and lambda definitions, and after "
+    "code-object swaps)",
+    "modelled, not verified: hash(func.__code__) tells two code objects apart (it covers co_firstlineno; the generated programs never "
+    "put two defs on one line); a fresh process starts with empty _FUNCTION_HASHES / _FUNC_CODE_WRITERS; dead function objects "
+    "leaving the weak table are not modelled",
+    "the class of a damaged func_code.py (unreadable / readable garbage) is computed by the generated program from the bytes left "
+    "(utf-8 decodable? header number parsable?), independently of joblib, and is an input of the model",
     "sessions are sequential (one process at a time on the cache directory); concurrent sessions are C11's",
 ]
 
-RULE = ("histories of 3..16 operations over 1..3 sessions (interpreter processes) sharing a cache directory, 1..3 versions of "
-        "one same-named function, up to 4 live function objects per session, arguments 0..2; definition styles: module-level "
-        "(imported module), nested def, __main__ script, lambda; code-object swaps, check_call_in_cache, MemorizedFunc.clear, "
-        "Memory.clear; non-trivial = a call step; distinct by (style, versions seen so far, versions live in the session, number of "
-        "live objects, the caller's version and argument, whose code is stored, which arguments are cached under it, executed?)")
+RULE = ("histories of 3..18 operations over 1..3 sessions (interpreter processes) sharing a cache directory, 1..4 versions of "
+        "one same-named function drawn from 13 kinds of edits (constant, operator, indentation-only, comment, docstring, blank line, "
+        "trailing whitespace, default argument, renamed local, reordered statements), up to 4 live function objects and 2 extra "
+        "wrappers per session, arguments 0..2; definition styles: module-level (imported module), nested def, __main__ script, lambda; "
+        "code-object swaps there and back, check_call_in_cache, MemorizedFunc.clear, Memory.clear, func_code.py deleted / truncated "
+        "at 8 boundary-biased places; non-trivial = a call step; distinct by (style, versions seen so far, versions live in the "
+        "session, the caller's version and argument, whose text is stored, which arguments are cached under it, swapped?, damaged?, "
+        "executed?)")
 
 STYLES = ["module", "nested", "main", "lambda"]
 
+# ----------------------------------------------------------------------------- versions: edits of one base text
 
-# ----------------------------------------------------------------------------- program generation
+BASE = [
+    "def f(x, y=1):",
+    '    """é doc"""',
+    "    t = 0",
+    "    u = 5",
+    "    for i in range(3):",
+    "        t += 2",
+    "        u += t",
+    "    t += 100",
+    "    N.append(0)",
+    "    return (t, u, x, y)",
+]
+
+
+def _edit(**kw):
+    lines = list(BASE)
+    for i, new in sorted(kw.get("set", {}).items()):
+        lines[i] = new
+    for i, new in sorted(kw.get("ins", {}).items(), reverse=True):
+        lines.insert(i, new)
+    if "swap" in kw:
+        i, j = kw["swap"]
+        lines[i], lines[j] = lines[j], lines[i]
+    return lines
+
+
+VERSIONS = {
+    1: ("base", BASE),
+    2: ("constant", _edit(set={5: "        t += 7"})),  # same bytecode as the base, another constant
+    3: ("operator", _edit(set={5: "        t -= 2"})),
+    4: ("indentation-only:out-of-loop", _edit(set={6: "    u += t"})),
+    5: ("indentation-only:into-loop", _edit(set={7: "        t += 100"})),
+    6: ("comment-only", _edit(ins={2: "    # a comment"})),
+    7: ("docstring-only", _edit(set={1: '    """é other doc"""'})),
+    8: ("blank-line", _edit(ins={4: ""})),
+    9: ("default-argument", _edit(set={0: "def f(x, y=2):"})),
+    10: ("renamed-local", BASE),  # replaced below
+    11: ("reordered-with-effect", _edit(swap=(5, 6))),
+    12: ("reordered-without-effect", _edit(swap=(2, 3))),
+    13: ("trailing-whitespace", _edit(set={2: "    t = 0   "})),
+}
+# version 10: rename the local `t` to `s` textually, carefully
+VERSIONS[10] = ("renamed-local", [
+    "def f(x, y=1):", '    """é doc"""', "    s = 0", "    u = 5", "    for i in range(3):", "        s += 2", "        u += s",
+    "    s += 100", "    N.append(0)", "    return (s, u, x, y)"])
+LAMBDAS = {
+    21: ("lambda-base", ["f = lambda x: (N.append(0), ('é', 1, x))[1]"]),
+    22: ("lambda-constant", ["f = lambda x: (N.append(0), ('é', 2, x))[1]"]),
+    23: ("lambda-operator", ["f = lambda x: (N.append(0), ('é', 1, -x))[1]"]),
+    24: ("lambda-whitespace", ["f = lambda x: (N.append(0), ( 'é', 1, x ))[1]"]),
+}
+NO_SWAP = {9}  # defaults live on the function object, not on the code object
+# groups of versions worth meeting in one history
+GROUPS = [[1, 2], [1, 3], [1, 4], [1, 5], [4, 5, 1], [1, 6, 7], [1, 8, 13], [1, 9], [1, 10], [1, 11, 12], [2, 3, 11], [4, 11], [1, 2, 4, 5]]
+LGROUPS = [[21, 22], [21, 23], [21, 24], [21, 22, 23, 24]]
+
+_PLAIN = {}
+
+
+def version_lines(k):
+    return (VERSIONS.get(k) or LAMBDAS[k])[1]
+
+
+def plain(k, a):
+    """What version k's plain text returns for argument a (JSON form)."""
+    if k not in _PLAIN:
+        ns = {"N": []}
+        exec("\n".join(version_lines(k)) + "\n", ns)  # noqa: S102 - generated text only
+        _PLAIN[k] = ns["f"]
+    return json.loads(json.dumps(_PLAIN[k](a)))
 
 
 def def_text(style, k):
     """Source of one definition of version k (identical text wherever it appears)."""
-    if style == "lambda":
-        return [f"f = lambda x: (N.append({k}), ('v{k}', x))[1]"]
-    body = ["def f(x):", f"    N.append({k})", f"    return ('v{k}', x)"]
+    body = version_lines(k)
     if style == "nested":
-        return ["def make():"] + ["    " + ln for ln in body] + ["    return f", "f = make()"]
-    return body
+        return ["def make():"] + ["    " + ln if ln else ln for ln in body] + ["    return f", "f = make()"]
+    return list(body)
+
+
+# ----------------------------------------------------------------------------- program generation
+
+PRELUDE = '''import json, os, sys, warnings
+sys.path.insert(0, os.environ['VERIF_REPO'])
+warnings.simplefilter('ignore')
+from joblib import Memory
+_mem = Memory(%r, verbose=0)
+N = []
+_out = []
+
+def _classify(b):
+    try:
+        t = b.decode('utf-8')
+    except UnicodeDecodeError:
+        return 'unreadable'
+    if t.startswith('# first line:'):
+        try:
+            int(t.split('\\n')[0][len('# first line:'):])
+        except ValueError:
+            return 'unreadable'
+    return 'other'
+
+def _damage(cf, kind):
+    p = os.path.join(cf.store_backend.location, cf.func_id, 'func_code.py')
+    if not os.path.exists(p):
+        _out.append(['damage', 'absent'])
+        return
+    b = open(p, 'rb').read()
+    if kind == 'delete':
+        os.remove(p)
+        _out.append(['damage', 'delete'])
+        return
+    nl = b.index(b'\\n') + 1 if b'\\n' in b else len(b)
+    n = dict(empty=0, inheader=5, nonumber=13, midnumber=14, afterheader=nl,
+             multibyte=(b.index(b'\\xc3') + 1 if b'\\xc3' in b else len(b) - 1),
+             oneshort=len(b) - 1, twothirds=2 * len(b) // 3)[kind]
+    if n >= len(b):
+        _out.append(['damage', 'intact'])
+        return
+    open(p, 'wb').write(b[:n])
+    _out.append(['damage', _classify(b[:n])])
+
+'''
+
+DAMAGES = ["delete", "empty", "inheader", "nonumber", "midnumber", "afterheader", "multibyte", "oneshort", "twothirds"]
 
 
 def program(style, loc, result, ops):
-    """The session program. ops: list of dicts (def/swap/call/check/clearfn/clearall)."""
-    src = [
-        "import json, os, sys, warnings",
-        "sys.path.insert(0, os.environ['VERIF_REPO'])",
-        "warnings.simplefilter('ignore')",
-        "from joblib import Memory",
-        f"_mem = Memory({loc!r}, verbose=0)",
-        "N = []",
-        "_out = []",
-        "",
-    ]
+    src = (PRELUDE % loc).split("\n")
     for op in ops:
         o = op.get("o")
+        w = op.get("w")
         if op["op"] == "def":
-            src += def_text(style, op["k"]) + [f"f_{o} = f", f"c_{o} = _mem.cache(f_{o})", ""]
+            src += def_text(style, op["k"]) + [f"f_{o} = f", f"k_{o} = f_{o}.__code__", f"c_{o} = _mem.cache(f_{o})", ""]
+        elif op["op"] == "wrap":
+            src += [f"c_{w} = _mem.cache(f_{o})", "_out.append(['ok'])", ""]
         elif op["op"] == "swap":
-            src += [f"f_{o}.__code__ = f_{op['p']}.__code__", "_out.append(['ok'])", ""]
+            src += [f"f_{o}.__code__ = k_{op['p']}", "_out.append(['ok'])", ""]
         elif op["op"] == "call":
             src += [
                 "_n = len(N)",
                 "try:",
-                f"    _v = c_{o}({op['a']})",
-                "    _out.append(['val', list(_v), len(N) > _n])",
+                f"    _v = c_{w}({op['a']})",
+                "    _out.append(['val', json.loads(json.dumps(_v)), len(N) > _n])",
                 "except Exception as _e:",
                 "    _out.append(['raise', type(_e).__name__])",
                 "",
@@ -105,16 +235,18 @@ def program(style, loc, result, ops):
         elif op["op"] == "check":
             src += [
                 "try:",
-                f"    _out.append(['flag', bool(c_{o}.check_call_in_cache({op['a']}))])",
+                f"    _out.append(['flag', bool(c_{w}.check_call_in_cache({op['a']}))])",
                 "except Exception as _e:",
                 "    _out.append(['raise', type(_e).__name__])",
                 "",
             ]
         elif op["op"] == "clearfn":
-            src += [f"c_{o}.clear(warn=False)", "_out.append(['ok'])", ""]
+            src += [f"c_{w}.clear(warn=False)", "_out.append(['ok'])", ""]
         elif op["op"] == "clearall":
             src += ["_mem.clear(warn=False)", "_out.append(['ok'])", ""]
-    src += [f"open({result!r}, 'w').write(json.dumps(_out))", ""]
+        elif op["op"] == "damage":
+            src += [f"_damage(c_{w}, {op['kind']!r})", ""]
+    src += [f"open({result!r}, 'w', encoding='utf-8').write(json.dumps(_out))", ""]
     return "\n".join(src)
 
 
@@ -144,17 +276,16 @@ def run_case(case, workdir):
     env["VERIF_REPO"] = str(core.REPO)
     env.pop("PYTHONPATH", None)
     for si, ops in enumerate(sessions_of(case)):
-        with open(path, "w") as f:
+        with open(path, "w", encoding="utf-8") as f:
             f.write(program(style, loc, result, ops))
-        for d in ("__pycache__",):
-            shutil.rmtree(os.path.join(workdir, d), ignore_errors=True)
+        shutil.rmtree(os.path.join(workdir, "__pycache__"), ignore_errors=True)
         if os.path.exists(result):
             os.remove(result)
         cmd = [core.PY, "-B", path] if style == "main" else [core.PY, "-B", "-c", "import c12mod"]
         p = subprocess.run(cmd, cwd=workdir, env=env, capture_output=True, text=True, timeout=120)
         if p.returncode != 0 or not os.path.exists(result):
             raise core.InfraError(f"session {si} of {case.get('label')} failed: {p.stderr[-600:]}")
-        got = json.load(open(result))
+        got = json.load(open(result, encoding="utf-8"))
         it = iter(got)
         if si > 0:
             recs.append(["ok"])  # the `fresh` op
@@ -166,30 +297,52 @@ def run_case(case, workdir):
 # ----------------------------------------------------------------------------- model side
 
 
-def model_lines(case, ver):
-    lines = [f"reset {ver}"]
-    src = {}
-    for op in case["ops"]:
+def akey(defver, a):
+    """The args id covers the DEFAULT values (filter_args binds them): calls of a function defined with another default are other
+    entries. The model's argument keys are kept apart accordingly."""
+    return a + 10 if defver in NO_SWAP else a
+
+
+def model_lines(case, recs, cfg):
+    """Request lines; None for steps that are no model operation (damage of an absent / intact file)."""
+    lines = [f"reset {cfg[0]} {cfg[1]}"]
+    idx = []
+    ver = {}
+    wobj = {}
+    for op, rec in zip(case["ops"], recs):
         k = op["op"]
+        ln = None
+        if k == "fresh":
+            wobj = {}
         if k == "def":
-            src[op["o"]] = op["k"]
-            lines.append(f"def {op['o']} {op['k']} {0 if case['style'] == 'lambda' else 1}")
+            ver[op["o"]] = op["k"]
+            wobj[op["o"]] = op["o"]
+            ln = f"def {op['o']} {op['k']} {0 if case['style'] == 'lambda' else 1}"
+        elif k == "wrap":
+            wobj[op["w"]] = op["o"]
+            ln = f"wrap {op['w']} {op['o']}"
         elif k == "swap":
-            src[op["o"]] = src[op["p"]]
-            lines.append(f"swap {op['o']} {src[op['o']]}")
+            ln = f"swap {op['o']} {op['p']} {ver[op['p']]}"
         elif k in ("call", "check"):
-            lines.append(f"{k} {op['o']} {op['a']}")
+            ln = f"{k} {op['w']} {akey(ver[wobj[op['w']]], op['a'])}"
         elif k == "clearfn":
-            lines.append(f"clearfn {op['o']}")
+            ln = f"clearfn {op['w']}"
+        elif k == "damage":
+            cls = rec[1] if rec and rec[0] == "damage" else "?"
+            if cls in ("delete", "unreadable", "other"):
+                ln = f"damage {cls}"
         else:
-            lines.append(k)
-    return lines
+            ln = k
+        idx.append(None if ln is None else len(lines))
+        if ln is not None:
+            lines.append(ln)
+    return lines, idx
 
 
 def canon_model(rep):
     t = rep.split()
     if t[0] == "val":
-        return ["val", ["v" + t[2], int(t[3])], t[1] == "x"]
+        return ["val", plain(int(t[2]), int(t[3]) % 10), t[1] == "x"]
     if t[0] == "flag":
         return ["flag", t[1] == "1"]
     if rep == "ok":
@@ -201,55 +354,93 @@ def canon_model(rep):
 
 
 def judge(case, recs, res):
-    src, owner, valid = {}, None, set()
-    seen_versions = set()
-    session_sources = set()
+    cur, wobj, swapped, defver = {}, {}, set(), {}
+    owner, valid = None, set()
+    deleted = damaged = False
+    stored_any = False  # a call completed since the last clear: the directory may hold entries
+    dirty = healable = False  # func_code.py damaged and not certainly rewritten yet; a fresh process (no in-memory shortcut) rewrites it
+    seen_versions, session_sources = set(), set()
     prev_check = None
     for j, (op, out) in enumerate(zip(case["ops"], recs)):
         k = op["op"]
         ctx = dict(case=case, step=j, op=op, out=out)
         if k == "fresh":
-            src, session_sources, prev_check = {}, set(), None
+            cur, wobj, swapped, session_sources, prev_check = {}, {}, set(), set(), None
+            healable = dirty
             continue
         if k == "def":
-            src[op["o"]] = op["k"]
+            cur[op["o"]] = op["k"]
+            defver[op["o"]] = op["k"]
+            wobj[op["o"]] = op["o"]
             seen_versions.add(op["k"])
             session_sources.add(op["k"])
             continue
+        if k == "wrap":
+            wobj[op["w"]] = op["o"]
+            continue
         if k == "swap":
-            src[op["o"]] = src[op["p"]]
+            # the code object function p was DEFINED with
+            cur[op["o"]] = next(o2["k"] for o2 in case["ops"][:j][::-1] if o2["op"] == "def" and o2["o"] == op["p"])
+            swapped.add(op["o"])
             continue
         if k == "clearall":
-            owner, valid = None, set()
+            owner, valid, deleted, damaged, dirty, healable = None, set(), False, False, False, False
+            stored_any = False
             continue
-        mine = src[op["o"]]
+        if k == "damage":
+            if out[1] in ("delete", "unreadable", "other"):
+                damaged = dirty = True
+                healable = False
+                if out[1] == "delete" and stored_any:
+                    deleted = True
+                owner, valid = None, set()
+            continue
+        o = wobj[op["w"]]
+        mine = cur[o]
         if k == "clearfn":
-            owner, valid = mine, set()
+            owner, valid, deleted, damaged, dirty, healable = mine, set(), False, False, False, False
+            stored_any = False
             continue
-        tag = case["style"] + (":redefined-in-session" if len(session_sources) > 1 else "")
+        tag = case["style"] + (":code-swap" if o in swapped else ":redefined-in-session" if len(session_sources) > 1 else "")
         if k == "check":
+            if dirty and healable:
+                dirty = healable = False
             if owner != mine:
                 owner, valid = mine, set()
-            prev_check = (op["o"], op["a"], out)
+            if dirty:
+                owner, valid = None, set()
+            prev_check = (op["w"], op["a"], out)
             continue
         # call
-        res.count("call:" + ("stored-code-is-own" if owner == mine else "stored-code-is-other" if owner is not None else "no-stored-code"))
-        expect_hit = owner == mine and op["a"] in valid
+        res.count("call:" + ("stored-text-is-own" if owner == mine else "stored-text-is-other" if owner is not None else "no-known-stored-text"))
+        res.count("caller-version=" + (VERSIONS.get(mine) or LAMBDAS[mine])[0])
+        ak = akey(defver[o], op["a"])
+        expect_hit = owner == mine and ak in valid
         if out[0] != "val":
             res.fail("call-raises:" + case["style"], ctx, out)
         else:
-            if out[1] != ["v%d" % mine, op["a"]]:
-                res.fail("wrong-version-value:" + tag, ctx, dict(returned=out[1], own_version=mine, stored_code_last_written_for=owner))
+            want = plain(mine, op["a"])
+            if out[1] != want:
+                sig = "stale-after-func-code-deleted" if deleted else "wrong-version-value:" + tag + (":after-damage" if damaged else "")
+                res.fail(sig, ctx, dict(returned=out[1], own_version=mine, own_version_returns=want, stored_text_last_written_for=owner))
             elif expect_hit and out[2]:
                 res.fail("unchanged-code-recomputed:" + tag, ctx, dict(version=mine))
-            if prev_check is not None and prev_check[:2] == (op["o"], op["a"]) and prev_check[2][0] == "flag":
+            if prev_check is not None and prev_check[:2] == (op["w"], op["a"]) and prev_check[2][0] == "flag":
                 if prev_check[2][1] != (not out[2]):
-                    res.fail("check-call-in-cache-disagrees:" + tag, ctx, dict(check_said=prev_check[2][1], executed=out[2]))
-            res.nontrivial.add(json.dumps([case["style"], sorted(seen_versions), sorted(session_sources), len(src), mine, op["a"],
-                                           "own" if owner == mine else "other" if owner is not None else "none", out[2], sorted(valid)]))
+                    # after func_code.py was deleted the check writes it (answer False) and the entries left behind are served
+                    res.fail("stale-after-func-code-deleted" if deleted else "check-call-in-cache-disagrees:" + tag, ctx,
+                             dict(check_said=prev_check[2][1], executed=out[2]))
+            stored_any = True
+            res.nontrivial.add(json.dumps([case["style"], sorted(seen_versions), sorted(session_sources), mine, op["a"],
+                                           "own" if owner == mine else "other" if owner is not None else "none", sorted(valid),
+                                           o in swapped, damaged, out[2]]))
+        if dirty and healable:
+            dirty = healable = False
         if owner != mine:
             owner, valid = mine, set()
-        valid.add(op["a"])
+        valid.add(ak)
+        if dirty:  # the in-memory shortcut may have answered: the damaged file is possibly still there
+            owner, valid = None, set()
         prev_check = None
 
 
@@ -258,88 +449,181 @@ def judge(case, recs, res):
 
 def gen_case(rng, idx, thorough, label):
     style = rng.choice(["module", "module", "nested", "main", "main", "lambda"])
-    nver = rng.choice([1, 2, 2, 2, 3])
-    ops, live = [], []
-    nobj = 0
-    n = rng.randint(3, 22 if thorough else 16)
+    pool = list(rng.choice(LGROUPS if style == "lambda" else GROUPS))
+    shape = rng.random()
+    if shape < 0.25:
+        return dict(label=f"{label}{idx}", style=style, ops=fault_history(rng, pool))
+    if shape < 0.45 and style != "lambda":
+        return dict(label=f"{label}{idx}", style=style, ops=swap_history(rng, [v for v in pool if v not in NO_SWAP] or [1, 2]))
+    ops, live, wraps = [], [], []
+    ver = {}
+    nobj, nw = 0, 100
+    n = rng.randint(3, 24 if thorough else 18)
     sessions = 1
     while len(ops) < n:
         r = rng.random()
-        if not live or (r < 0.22 and len(live) < 4):
+        if not live or (r < 0.20 and len(live) < 4):
             nobj += 1
-            # often re-define an already known version (unchanged code), else a new one
-            ops.append(dict(op="def", o=nobj, k=rng.randint(1, nver)))
+            ver[nobj] = rng.choice(pool)
+            ops.append(dict(op="def", o=nobj, k=ver[nobj]))
             live.append(nobj)
-        elif r < 0.72:
-            o = rng.choice(live)
+            wraps.append(nobj)
+        elif r < 0.66:
+            w = rng.choice(wraps)
             a = rng.choice([0, 0, 1, 2])
             if rng.random() < 0.15:
-                ops.append(dict(op="check", o=o, a=a))
-            ops.append(dict(op="call", o=o, a=a))
-        elif r < 0.78 and len(live) > 1 and style != "lambda":
-            o, p = rng.sample(live, 2)
-            ops.append(dict(op="swap", o=o, p=p))
-        elif r < 0.83:
-            ops.append(dict(op="clearfn", o=rng.choice(live)))
-        elif r < 0.86:
+                ops.append(dict(op="check", w=w, a=a))
+            ops.append(dict(op="call", w=w, a=a))
+        elif r < 0.74 and style != "lambda":
+            cands = [o for o in live if ver[o] not in NO_SWAP]
+            if len(cands) >= 1:
+                o = rng.choice(cands)
+                p = rng.choice(cands)
+                ops.append(dict(op="swap", o=o, p=p))
+        elif r < 0.78 and len(wraps) < len(live) + 2:
+            nw += 1
+            ops.append(dict(op="wrap", w=nw, o=rng.choice(live)))
+            wraps.append(nw)
+        elif r < 0.82:
+            ops.append(dict(op="clearfn", w=rng.choice(wraps)))
+        elif r < 0.85:
             ops.append(dict(op="clearall"))
-        elif r < 0.97 and sessions < 3 and len(ops) > 1:
+        elif r < 0.90:
+            ops.append(dict(op="damage", w=rng.choice(wraps), kind=rng.choice(DAMAGES)))
+        elif r < 0.98 and sessions < 3 and len(ops) > 1:
             ops.append(dict(op="fresh"))
-            live = []
+            live, wraps = [], []
             sessions += 1
-    while ops and ops[-1]["op"] in ("fresh", "def"):
+    while ops and ops[-1]["op"] in ("fresh", "def", "wrap"):
         ops.pop()
     return dict(label=f"{label}{idx}", style=style, ops=ops)
 
 
+def fault_history(rng, pool):
+    """>= 2 entries stored, func_code.py damaged (between sessions or between calls), then an EDITED definition is called with ALL
+    stored arguments."""
+    D, C = (lambda o, k: dict(op="def", o=o, k=k)), (lambda w, a: dict(op="call", w=w, a=a))
+    v1 = rng.choice(pool)
+    v2 = rng.choice([v for v in pool if v != v1] or pool)
+    args = rng.sample([0, 1, 2], rng.choice([2, 3]))
+    ops = [D(1, v1)] + [C(1, a) for a in args]
+    kind = rng.choice(DAMAGES)
+    where = rng.choice(["end-of-session", "start-of-next", "same-session"])
+    if where == "end-of-session":
+        ops += [dict(op="damage", w=1, kind=kind), dict(op="fresh"), D(2, v2)]
+    elif where == "start-of-next":
+        ops += [dict(op="fresh"), D(2, v2), dict(op="damage", w=2, kind=kind)]
+    else:
+        ops += [D(2, v2), dict(op="damage", w=1, kind=kind)]
+    order = list(args)
+    rng.shuffle(order)
+    ops += [C(2, a) for a in order]
+    if rng.random() < 0.5:
+        ops += [dict(op="fresh"), D(3, v1)] + [C(3, a) for a in args]
+    return ops
+
+
+def swap_history(rng, pool):
+    """A function's code object is replaced by another version's and put back, on one wrapper or on two."""
+    D, C = (lambda o, k: dict(op="def", o=o, k=k)), (lambda w, a: dict(op="call", w=w, a=a))
+    va = rng.choice(pool)
+    vb = rng.choice([v for v in pool if v != va] or pool)
+    ops = [D(1, va), D(2, vb)]
+    two = rng.random() < 0.5
+    if two:
+        ops.append(dict(op="wrap", w=101, o=1))
+    ws = [1, 101] if two else [1]
+    a = rng.choice([0, 1])
+    if rng.random() < 0.7:
+        ops.append(C(rng.choice(ws), a))
+    for _ in range(rng.randint(2, 5)):
+        ops.append(dict(op="swap", o=1, p=rng.choice([1, 2])))
+        if rng.random() < 0.2:
+            ops.append(dict(op="clearall"))
+        for _ in range(rng.randint(1, 2)):
+            ops.append(C(rng.choice(ws), rng.choice([a, a, 2])))
+    return ops
+
+
 def corpus_cases():
-    D, C, K = (lambda o, k: dict(op="def", o=o, k=k)), (lambda o, a: dict(op="call", o=o, a=a)), (lambda o, a: dict(op="check", o=o, a=a))
+    D, C, K = (lambda o, k: dict(op="def", o=o, k=k)), (lambda w, a: dict(op="call", w=w, a=a)), (lambda w, a: dict(op="check", w=w, a=a))
+    S = lambda o, p: dict(op="swap", o=o, p=p)  # noqa: E731
     F = dict(op="fresh")
     out = []
     for style in STYLES:
+        a, b = (21, 22) if style == "lambda" else (1, 2)
         # F10: v1 cached, v2 defined under the same name and cached, then old / new / old
-        out.append(dict(label="corpus-f10-" + style, style=style, ops=[D(1, 1), D(2, 2), C(1, 1), C(2, 1), C(1, 1), C(2, 1), C(1, 1)]))
-        # F10 through check_call_in_cache
-        out.append(dict(label="corpus-f10-check-" + style, style=style, ops=[D(1, 1), D(2, 2), C(1, 1), K(2, 1), C(2, 1), C(1, 1), C(2, 1)]))
+        out.append(dict(label="corpus-f10-" + style, style=style, ops=[D(1, a), D(2, b), C(1, 1), C(2, 1), C(1, 1), C(2, 1), C(1, 1)]))
+        out.append(dict(label="corpus-f10-check-" + style, style=style, ops=[D(1, a), D(2, b), C(1, 1), K(2, 1), C(2, 1), C(1, 1), C(2, 1)]))
         # edited between sessions, and back; unchanged code keeps its cache across sessions
         out.append(dict(label="corpus-sessions-" + style, style=style,
-                        ops=[D(1, 1), C(1, 0), C(1, 1), F, D(2, 1), C(2, 0), C(2, 2), F, D(3, 2), C(3, 0), F, D(4, 1), C(4, 0), C(4, 0)]))
-    out.append(dict(label="corpus-swap", style="module", ops=[D(1, 1), D(2, 2), C(1, 0), dict(op="swap", o=1, p=2), C(1, 0), C(2, 0), C(1, 0),
-                                                              dict(op="clearfn", o=2), C(1, 0), dict(op="clearall"), C(2, 0), C(1, 0)]))
+                        ops=[D(1, a), C(1, 0), C(1, 1), F, D(2, a), C(2, 0), C(2, 2), F, D(3, b), C(3, 0), F, D(4, a), C(4, 0), C(4, 0)]))
+    for style in ("module", "nested", "main"):
+        # F38: swap to another version's code object and back, one wrapper / two wrappers
+        out.append(dict(label="corpus-f38-" + style, style=style, ops=[D(1, 1), D(2, 2), C(1, 0), S(1, 2), C(1, 0), S(1, 1), C(1, 0), S(1, 2), C(1, 0)]))
+        out.append(dict(label="corpus-f38-two-wrappers-" + style, style=style,
+                        ops=[D(1, 1), D(2, 2), dict(op="wrap", w=101, o=1), C(1, 0), S(1, 2), C(1, 0), S(1, 1), dict(op="clearall"), C(1, 0),
+                             S(1, 2), C(101, 0), S(1, 1), C(101, 0), C(1, 0)]))
+    # Memory.clear(), the same function cached again, then a fresh process: unchanged code must keep what was cached after the clear
+    for style in ("module", "main"):
+        out.append(dict(label="corpus-clearall-then-fresh-" + style, style=style,
+                        ops=[D(1, 1), C(1, 0), dict(op="clearall"), C(1, 0), C(1, 1), F, D(2, 1), C(2, 0), C(2, 1),
+                             dict(op="clearfn", w=2), C(2, 0), F, D(3, 1), C(3, 0)]))
+    # every kind of edit between sessions, each followed by calls with all cached arguments
+    ops = []
+    for n, v in enumerate(sorted(VERSIONS)):
+        ops += ([F] if ops else []) + [D(n + 1, v), C(n + 1, 0), C(n + 1, 1), C(n + 1, 0)]
+    out.append(dict(label="corpus-all-edits", style="module", ops=ops))
+    ops = []
+    for n, v in enumerate([1, 4, 5, 1, 13, 8, 1]):
+        ops += [D(n + 1, v), C(n + 1, 0), C(n + 1, 1)]
+    out.append(dict(label="corpus-whitespace-edits-in-session", style="main", ops=ops))
+    # damage of every kind with two entries stored, then the edited definition on all arguments
+    for kind in DAMAGES:
+        out.append(dict(label="corpus-damage-" + kind, style="module",
+                        ops=[D(1, 1), C(1, 0), C(1, 1), dict(op="damage", w=1, kind=kind), F, D(2, 2), C(2, 0), C(2, 1), C(2, 0)]))
+        out.append(dict(label="corpus-damage-insession-" + kind, style="main",
+                        ops=[D(1, 1), D(2, 4), C(1, 0), C(1, 1), dict(op="damage", w=1, kind=kind), C(1, 0), C(2, 0), C(2, 1), C(1, 1)]))
     return out
 
 
 # ----------------------------------------------------------------------------- exploration
 
-_VER = {}
+_CFG = {}
 
 
-def impl_version(scratch):
-    """'fixed' when the tree under test keeps c1 returning v1 on the F10 history, 'old' otherwise (probed once)."""
+def impl_cfg(scratch):
+    """(f10, f38): 1 when the tree under test shows the repaired behaviour on the probe history, probed once."""
     key = str(core.REPO)
-    if key not in _VER:
-        c = dict(label="probe", style="module", ops=[dict(op="def", o=1, k=1), dict(op="def", o=2, k=2), dict(op="call", o=1, a=1),
-                                                     dict(op="call", o=2, a=1), dict(op="call", o=1, a=1)])
-        d = os.path.join(str(scratch), "f10-probe")
-        recs = run_case(c, d)
+    if key not in _CFG:
+        D, C = (lambda o, k: dict(op="def", o=o, k=k)), (lambda w, a: dict(op="call", w=w, a=a))
+        d = os.path.join(str(scratch), "probe")
+        r10 = run_case(dict(label="probe10", style="module", ops=[D(1, 1), D(2, 2), C(1, 1), C(2, 1), C(1, 1)]), d)
         shutil.rmtree(d, ignore_errors=True)
-        _VER[key] = "fixed" if recs[-1][:2] == ["val", ["v1", 1]] else "old"
-    return _VER[key]
+        r38 = run_case(dict(label="probe38", style="module",
+                            ops=[D(1, 1), D(2, 2), C(1, 0), dict(op="swap", o=1, p=2), C(1, 0), dict(op="swap", o=1, p=1), C(1, 0)]), d)
+        shutil.rmtree(d, ignore_errors=True)
+        _CFG[key] = (int(r10[-1][:2] == ["val", plain(1, 1)]), int(r38[-1][:2] == ["val", plain(1, 0)]))
+    return _CFG[key]
 
 
-def run_one(case, workdir, driver, res, ver):
+def run_one(case, workdir, driver, res, cfg):
     recs = run_case(case, workdir)
-    lines = model_lines(case, ver)
+    lines, idx = model_lines(case, recs, cfg)
     replies = driver.run(lines)
-    for j, (op, out, rep) in enumerate(zip(case["ops"], recs, replies[1:])):
+    for j, (op, out, w) in enumerate(zip(case["ops"], recs, idx)):
         res.evaluations += 1
+        res.count("op=" + op["op"] + (":" + out[1] if op["op"] == "damage" and out and out[0] == "damage" else ""))
+        if w is None:
+            continue
+        rep = replies[w]
         res.traces_validated += 1
-        res.count("op=" + op["op"])
         if rep == "bad-op":
-            raise core.InfraError(f"driver rejected {lines[j + 1]!r}")
+            raise core.InfraError(f"driver rejected {lines[w]!r}")
         m = canon_model(rep)
-        if m != out:
-            res.diverge("step", dict(case=case, step=j, op=op, model_version=ver), out, m)
+        o = ["ok"] if op["op"] == "damage" else out
+        if m != o:
+            res.diverge("step", dict(case=case, step=j, op=op, model_cfg=list(cfg)), out, m)
     judge(case, recs, res)
     res.count("style=" + case["style"])
     res.count("sessions=%d" % len(sessions_of(case)))
@@ -347,14 +631,14 @@ def run_one(case, workdir, driver, res, ver):
 
 
 def _worker(job):
-    seed, tier, scratch, salt, start, count, ver = job
+    seed, tier, scratch, salt, start, count, cfg = job
     core.use_repo()
     res = Result()
     driver = core.Driver("C12")
     for idx in range(start, start + count):
         rng = random.Random(f"C12/{seed}/{salt}/{idx}")
         case = gen_case(rng, idx, tier == "thorough", salt)
-        run_one(case, os.path.join(scratch, f"{salt}{idx}"), driver, res, ver)
+        run_one(case, os.path.join(scratch, f"{salt}{idx}"), driver, res, cfg)
         if idx < start + 1:
             res.sample(case)
     return res
@@ -366,22 +650,26 @@ def explore(ctx, n_cases, salt, with_corpus=True):
     core.use_repo()
     res = Result()
     res.rule = RULE
-    ver = impl_version(ctx.scratch)
-    res.extra["implementation_shortcut"] = ("checks the writer of func_code.py (F10 repaired)" if ver == "fixed"
-                                            else "_FUNCTION_HASHES only (pinned code)")
+    cfg = impl_cfg(ctx.scratch)
+    res.extra["implementation"] = dict(
+        in_memory_shortcut="checks the writer of func_code.py (F10 repaired)" if cfg[0] else "_FUNCTION_HASHES only (before F10)",
+        func_code_info="records the code object its source was read for (F38 repaired)" if cfg[1] else "keeps the first code object seen (F38)")
     driver = ctx.driver()
-    if with_corpus:
-        for c in corpus_cases():
-            run_one(c, os.path.join(str(ctx.scratch), c["label"]), driver, res, ver)
-            res.count("corpus-cases")
     workers = min(16, os.cpu_count() or 1)
+    if with_corpus:
+        cc = corpus_cases()
+        chunks = [cc[i::workers] for i in range(workers)]
+        with concurrent.futures.ProcessPoolExecutor(max_workers=workers) as ex:
+            for part in ex.map(_corpus_worker, [(str(ctx.scratch), ch, cfg) for ch in chunks if ch]):
+                memcache.merge(res, part)
+        res.count("corpus-cases", len(cc))
     per = max(1, (n_cases + workers * 3 - 1) // (workers * 3))
-    jobs = [(ctx.seed, ctx.tier, str(ctx.scratch), salt, s, min(per, n_cases - s), ver) for s in range(0, n_cases, per)]
+    jobs = [(ctx.seed, ctx.tier, str(ctx.scratch), salt, s, min(per, n_cases - s), cfg) for s in range(0, n_cases, per)]
     with concurrent.futures.ProcessPoolExecutor(max_workers=workers) as ex:
         for part in ex.map(_worker, jobs):
             memcache.merge(res, part)
-    bad = ["", "call 1", "def 1 1", "def 1 1 2", "reset", "reset new", "swap 1", "call x 1", "fresh now"]
-    replies = driver.run(["reset fixed"] + bad)
+    bad = ["", "call 1", "def 1 1", "def 1 1 2", "reset", "reset 1", "reset 2 1", "swap 1 2", "call x 1", "fresh now", "damage", "damage torn", "wrap 1"]
+    replies = driver.run(["reset 1 1"] + bad)
     for b, rep in zip(bad, replies[1:]):
         if rep != "bad-op":
             res.diverge("malformed-request", b, "bad-op", rep)
@@ -393,6 +681,16 @@ def explore(ctx, n_cases, salt, with_corpus=True):
     return res
 
 
+def _corpus_worker(job):
+    scratch, cases, cfg = job
+    core.use_repo()
+    res = Result()
+    driver = core.Driver("C12")
+    for c in cases:
+        run_one(c, os.path.join(scratch, c["label"]), driver, res, cfg)
+    return res
+
+
 def run(ctx):
     if ctx.replay:
         core.use_repo()
@@ -401,7 +699,7 @@ def run(ctx):
         case = (ctx.replay.get("case") or {}).get("case")
         if not case:
             raise core.InfraError("replay file has no history")
-        run_one(case, os.path.join(str(ctx.scratch), "replay"), ctx.driver(), res, impl_version(ctx.scratch))
+        run_one(case, os.path.join(str(ctx.scratch), "replay"), ctx.driver(), res, impl_cfg(ctx.scratch))
         return res
     return explore(ctx, 2500 if ctx.thorough else 450, "main")
 
